@@ -29,3 +29,15 @@ mod timeout_coord;
 
 /// Ends of two independent channels (for example the input and output channels of an agent).
 type Io = (ByteWriter, ByteReader);
+
+/// Re-exports used by the external verification harness (feature `verif-hooks`, off by default).
+#[cfg(feature = "verif-hooks")]
+pub mod verif_hooks {
+    pub use crate::agent::verif_task::*;
+    pub use crate::backpressure::{
+        BackpressureStrategy, InvalidKey, MapBackpressure, SupplyBackpressure, ValueBackpressure,
+    };
+    pub use crate::timeout_coord::{
+        agent_timeout_coordinator, downlink_timeout_coordinator, Receiver, VoteResult, Voter,
+    };
+}
